@@ -348,9 +348,17 @@ func realEncryptFile(tape []byte, recs []age.Recipient, segs [][]byte, armored b
 		if err != nil {
 			return
 		}
-		for _, s := range segs {
-			if _, err = w.Write(s); err != nil {
+		if len(segs) == 1 && len(tape) > 0 && (tape[0]&1 == 1 || (len(segs[0]) > 0 && len(segs[0])%65536 == 0)) {
+			// the way cmd/age feeds the writer: io.Copy from a source that is only an io.Reader (so that an
+			// io.ReaderFrom of the writer, if it has one, is what runs) and reports the end in a separate Read
+			if _, err = io.Copy(w, onlyReader{bytes.NewReader(segs[0])}); err != nil {
 				return
+			}
+		} else {
+			for _, s := range segs {
+				if _, err = w.Write(s); err != nil {
+					return
+				}
 			}
 		}
 		if err = w.Close(); err != nil {
@@ -362,6 +370,7 @@ func realEncryptFile(tape []byte, recs []age.Recipient, segs [][]byte, armored b
 	})
 	return buf.Bytes(), err, draws
 }
+
 
 // realDecryptFile decrypts to the end; returns canonical observation pieces.
 func realDecryptFile(file []byte, ids []age.Identity, armored bool) (out []byte, class string, consulted int) {
